@@ -304,6 +304,10 @@ func doCheck(prop, tier string) int {
 			incon = append(incon, fmt.Sprintf("watchdog fired after %.0fs in flavour %s (log %s)", oc.Wall, fn, oc.Log))
 			continue
 		}
+		if oc.Res != nil && oc.Res.Stalled != "" {
+			incon = append(incon, fmt.Sprintf("flavour %s: %s (log %s)", fn, oc.Res.Stalled, oc.Log))
+			continue
+		}
 		if oc.Res == nil || !oc.Res.Completed {
 			t := tail(oc.Log, 40)
 			if oc.Res != nil && oc.Res.Internal != "" {
